@@ -60,38 +60,47 @@ func (dc *agentConnection) receive(data []byte) {
 }
 
 func (dc *agentConnection) Read(b []byte) (int, error) {
-	dc.m.Lock()
-	if len(dc.buff) != 0 {
-		n := copy(b[:], dc.buff[0:])
-		dc.buff = dc.buff[n:]
+	for {
+		dc.m.Lock()
+		if len(dc.buff) != 0 {
+			n := copy(b[:], dc.buff[0:])
+			dc.buff = dc.buff[n:]
+			dc.m.Unlock()
+			return n, nil
+		}
 		dc.m.Unlock()
-		return n, nil
-	}
-	dc.m.Unlock()
 
-	verifhook.Point("agent.read.prewait")
+		verifhook.Point("agent.read.prewait")
 
-	after := noDeadline
+		after := noDeadline
 
-	if !dc.readTimeout.IsZero() {
-		after = time.After(time.Until(dc.readTimeout))
-	}
+		if !dc.readTimeout.IsZero() {
+			after = time.After(time.Until(dc.readTimeout))
+		}
 
-	select {
-	case <-after:
-		return 0, ErrTimeout
-	case _, ok := <-dc.in:
-		if !ok {
+		select {
+		case <-after:
+			return 0, ErrTimeout
+		case _, ok := <-dc.in:
+			if ok {
+				// woken up: look at the buffer again
+				continue
+			}
+
+			// closed: data that arrived just before the end of stream is
+			// still delivered, end of stream is reported after it
+			dc.m.Lock()
+			n := copy(b[:], dc.buff[0:])
+			dc.buff = dc.buff[n:]
+			dc.m.Unlock()
+
+			if n > 0 {
+				return n, nil
+			}
+
 			log.Errorf("Error reading from channel, return EOF")
 			return 0, io.EOF
 		}
-
-		dc.m.Lock()
-		n := copy(b[:], dc.buff[0:])
-		dc.buff = dc.buff[n:]
-		dc.m.Unlock()
-
-		return n, nil
 	}
 }
 
